@@ -891,6 +891,10 @@ def one_call(check, svc, dc, args, kw, hs, plan, cases, st, conformant, replay_e
     shape = ('null', body_style(dc) if dc else '-', plan[0], len(args), len(kw), bool(hs), nout[0],
              repr(dc['params'])[:60] if dc else '', repr(dc['returns'])[:40] if dc else '')
     check.count(shape)
+    stats = check.extra.setdefault('calls_by_style_and_function_behaviour', {})
+    sk = '%s/%s%s%s' % (body_style(dc) if dc else 'unknown-method', plan[0], '/headers' if hs else '',
+                        '' if conformant else '/non-conformant')
+    stats[sk] = stats.get(sk, 0) + 1
     if all_in_universe(nlog, nout):
         term = '(%s, %s, %s, %s, %s, (%s, %s))' % (gtext(name), g_hdr(hdr), g_plan(plan),
                                                    glist([UV.g_val(a) for a in args]), g_kw(kw),
